@@ -26,6 +26,10 @@ def cases(tier, seed):
                         continue
                     out.append({"kind": "reduce1d", "func": f, "dtype": dt, "L": L, "threads": T,
                                 "name": f"nanops.{f}/{dt}/len={L}/n_threads={T}", "witness": f == "nansum" and dt == "float64" and L == Lmax and T == 2})
+    # more threads than the quick bound on longer arrays: block boundaries computed in any other way than np.array_split show up here
+    for f in (("nansum", "nanmax") if tier == "quick" else FUNCS):
+        for L, T in (((8, 6), (8, 7)) if tier == "quick" else ((8, 6), (8, 7), (9, 7), (8, 5), (9, 4))):
+            out.append({"kind": "reduce1d", "func": f, "dtype": "float64", "L": L, "threads": T, "name": f"nanops.{f}/float64/len={L}/n_threads={T}"})
     for f in ("nansum", "nanmin", "nanmax"):
         for shape in ((2, 2), (2, 3), (3, 2)) if tier == "quick" else ((2, 2), (2, 3), (3, 2), (3, 3), (1, 3), (4, 3), (3, 4)):
             for axis in (0, 1):
